@@ -545,6 +545,28 @@ def evaluate(t: Term, leaf: Callable[[Term], Any]) -> Any:
     return leaf(t)
 
 
+def ite_to_cases(t: Any):
+    """a nested ite whose leaves are constants, flattened into ('cases', rows) with rows (conjunction of the branch conditions, leaf), sorted - the form call_merged
+    gives to an if/elif/else ladder of returns; None when t is not such a tree"""
+    rows = []
+
+    def walk(x, conds):
+        if isinstance(x, tuple) and len(x) == 4 and x[0] == "ite":
+            walk(x[2], conds + [x[1]])
+            walk(x[3], conds + [not_(x[1])])
+        elif is_const(x):
+            rows.append((and_(*conds) if conds else TRUE, x))
+        else:
+            raise ValueError
+    try:
+        walk(t, [])
+    except ValueError:
+        return None
+    if len(rows) < 2:
+        return None
+    return ("cases", tuple(sorted(rows, key=repr)))
+
+
 def as_cases(t: Any):
     """[(condition, value), ...] for a ('cases', ...) term or a two-way ('ite', c, a, b) term; None otherwise"""
     if isinstance(t, tuple) and t and t[0] == "cases":
